@@ -72,7 +72,7 @@ Proof.
       * intros (p & x & y & r & s & Ha & Hb & H). destruct p as [|e p].
         -- cbn in Ha, Hb. subst x y. destruct H as [[H _]|(c' & d' & Hx & Hy & Hlt)]; [discriminate|].
            injection Hx as -> _. injection Hy as -> _. lia.
-        -- cbn in Ha, Hb. injection Ha as -> Ha. injection Hb as _ Hb.
+        -- cbn in Ha, Hb. injection Ha as -> Ha. injection Hb as Hb.
            exists p, x, y, r, s. auto.
     + split; [|reflexivity]. intros _. exists [], (c :: a), (d :: b), a, b. cbn.
       split; [reflexivity|]. split; [reflexivity|]. right. exists c, d.
